@@ -518,6 +518,17 @@ def full_stack(ctx, thorough, rng):
         scen.append(dict(inst=fullstack.INST, segment=seg, interleave=il, answer_delay=rng.choice([0, 0, 1, 3]), horizon=160))
     for gen in (4, 5):
         ref_view = fullstack.run(gen, fullstack.SCENARIOS["plain"])["view"]
+        # many sessions in ONE process (registries, header factories and decoders are process-wide singletons): every one of them
+        # must initialise like the first - 48 sessions put well over 256 frames through the generation's header factory
+        for k in range(48):
+            b = fullstack.run(gen, fullstack.SCENARIOS["plain"])
+            ctx.case(("full-stack-session", gen, k))
+            if b.get("init_result") is not True or b["view"] != ref_view:
+                ctx.violation("C09:%d:full-stack:later-session" % gen, "AirTouch %d over the real socket: session number %d in the same process against a plainly answering console: "
+                              "init() returned %s after %s ticks%s" % (gen, k + 2, b.get("init_result"), b.get("init_done_at"), "" if b["view"] == ref_view else ", object model differs"),
+                              kind="history", level="full-stack", gen=gen, scenario={"horizon": 120, "sessions": k + 2},
+                              implementation_output={"init_result": b.get("init_result"), "init_done_at": b.get("init_done_at")}, spec_verdict="init() returns True with the described model")
+                break
         for sc in scen:
             b = fullstack.run(gen, sc)
             key = {k: v for k, v in sc.items() if k != "inst"}
